@@ -55,7 +55,7 @@ typedef struct {
     double thresh; int usepr, symmetric, fact, trans;
     long pseed; double pprob; long pmaxus;      /* perturbation */
     int trace, dump_lu, destroy; unsigned timeout;
-    long *colptr, *rowind, *permc, *permr; double *vals, *rhs; void *permc_used;
+    long *colptr, *rowind, *permc, *permr; double *vals, *rhs; void *permc_used; long *etree_out;
 } case_t;
 
 static int ints_equal(const int_t *a, const long *b, long k) { long i; for (i = 0; i < k; ++i) if ((long) a[i] != b[i]) return 0; return 1; }
@@ -79,6 +79,9 @@ static long last_nsuper_of_lsub; static long thread_begin, thread_end, sched_cal
 static long max_qtail; static case_t *cur_case; static int cb_on;
 static __thread unsigned long tl_rng; static __thread int tl_init; static __thread long tl_last_nsuper = -1;
 static long *lsub_start; /* per supernode number: start of its subscript region */
+static long *init_map; static long init_map_n = -1, init_nzlumax = -1; static int init_dynamic = 0;   /* snapshot of Glu->map_in_sup */
+static long *dyn_end;   /* dynamic mode: end of the slot of the H-supernode led by column j */
+static long slot_overrun_by, lusup_allocs, max_lusup_end;
 
 static void maybe_delay(long pnum, int site)
 {
@@ -127,7 +130,16 @@ static void verif_cb(int ev, long pnum, long a, long b, long c, const void *p)
         break;
     case SLU_VEV_RELEASE: if (a >= 0 && a < cb_n) __sync_fetch_and_add(&rel_count[a], 1); break;
     case SLU_VEV_DONE:    if (a >= 0 && a < cb_n) __sync_fetch_and_add(&done_count[a], 1); break;
-    case SLU_VEV_THREAD_BEGIN: __sync_fetch_and_add(&thread_begin, 1); break;
+    case SLU_VEV_THREAD_BEGIN:
+        pthread_mutex_lock(&evmu);
+        thread_begin++;
+        if (init_map_n < 0 && p) {   /* first worker: nobody has allocated yet */
+            const pxgstrf_shared_t *sh = (const pxgstrf_shared_t *) p; long k;
+            init_map_n = cb_n; init_dynamic = (int) sh->Glu->dynamic_snode_bound; init_nzlumax = sh->Glu->nzlumax;
+            for (k = 0; k <= cb_n; ++k) init_map[k] = sh->Glu->map_in_sup[k];
+        }
+        pthread_mutex_unlock(&evmu);
+        break;
     case SLU_VEV_THREAD_END:   __sync_fetch_and_add(&thread_end, 1); break;
     case SLU_VEV_SCHED: {
         const pxgstrf_shared_t *sh = (const pxgstrf_shared_t *) p;
@@ -139,8 +151,26 @@ static void verif_cb(int ev, long pnum, long a, long b, long c, const void *p)
         if (tl_last_nsuper >= 0 && tl_last_nsuper <= cb_n) lsub_start[tl_last_nsuper] = b;
         break;
     case SLU_VEV_ALLOC: {
-        const long *q = (const long *) p;   /* {prev_next, limit, fsupc} */
-        if (a == LUSUP && q && q[1] >= 0 && q[0] + c > q[1]) { slot_overrun++; slot_overrun_col = b; }
+        const long *q = (const long *) p;
+        if (a == 100 && q) {           /* DynamicSetMap: slot [q0, q0+c) for the H-supernode led by column b */
+            if (b >= 0 && b <= cb_n) dyn_end[b] = q[0] + c;
+            if (q[0] + c > q[1]) { pthread_mutex_lock(&evmu); slot_overrun++; slot_overrun_col = b; slot_overrun_by = q[0] + c - q[1]; pthread_mutex_unlock(&evmu); }
+        } else if (a == LUSUP && q && init_map_n >= 0) {   /* {prev_next, fsupc}: c entries inside the slot of fsupc */
+            long fs = q[1], end = -1, k;
+            if (fs >= 0 && fs <= cb_n) {
+                if (!init_dynamic || dyn_end[fs] < 0) {
+                    /* static image: the slot ends where the next slot leader's slot began */
+                    for (k = fs + 1; k <= cb_n; ++k) if (init_map[k] >= 0 && (k == cb_n || init_map[k] >= init_map[fs])) { end = init_map[k]; break; }
+                    if (init_dynamic && dyn_end[fs] < 0 && end < 0) end = init_nzlumax;
+                } else end = dyn_end[fs];
+            }
+            pthread_mutex_lock(&evmu);
+            lusup_allocs++;
+            if (q[0] + c > max_lusup_end) max_lusup_end = q[0] + c;
+            if (end >= 0 && q[0] + c > end) { slot_overrun++; slot_overrun_col = b; if (q[0] + c - end > slot_overrun_by) slot_overrun_by = q[0] + c - end; }
+            if (q[0] + c > init_nzlumax) { slot_overrun++; slot_overrun_col = b; }
+            pthread_mutex_unlock(&evmu);
+        }
         break; }
     default: break;
     }
@@ -161,6 +191,9 @@ static void cb_reset(case_t *c)
     free(rel_count); free(done_count); free(lsub_start);
     rel_count = (long *) calloc(c->n + 1, sizeof(long)); done_count = (long *) calloc(c->n + 1, sizeof(long));
     lsub_start = (long *) malloc((c->n + 2) * sizeof(long)); for (i = 0; i <= c->n; ++i) lsub_start[i] = -1;
+    free(init_map); free(dyn_end); init_map = (long *) calloc(c->n + 2, sizeof(long)); dyn_end = (long *) malloc((c->n + 2) * sizeof(long));
+    for (i = 0; i <= c->n; ++i) dyn_end[i] = -1;
+    init_map_n = -1; init_nzlumax = -1; slot_overrun_by = 0; lusup_allocs = 0; max_lusup_end = 0;
     if (!evbuf) evbuf = (evrec_t *) malloc(MAXEV * sizeof(evrec_t));
     nev = 0; slot_overrun = 0; slot_overrun_col = -1; nsuper_events = lsub_events = order_inversions = 0;
     thread_begin = thread_end = sched_calls = sched_nonempty = 0; max_qtail = 0; last_nsuper_of_lsub = -1;
@@ -183,7 +216,9 @@ static void cb_print(case_t *c)
     for (i = 0; i < c->n; ++i) if (rel_count[i] != 1) { bad_rel++; if (bad_rel_col < 0) bad_rel_col = i; }
     order_inversions = 0;
     { long last = -1; for (i = 0; i <= c->n; ++i) if (lsub_start[i] >= 0) { if (lsub_start[i] < last) order_inversions++; last = lsub_start[i]; } }
-    printf("\"lsub_order_inversions\":%ld,", order_inversions);
+    printf("\"lsub_order_inversions\":%ld,\"slot_overrun_by\":%ld,\"lusup_allocs\":%ld,\"max_lusup_end\":%ld,\"nzlumax\":%ld,\"dynamic_snode\":%d,",
+           order_inversions, slot_overrun_by, lusup_allocs, max_lusup_end, init_nzlumax, init_dynamic);
+    if (c->trace & 4) { printf("\"map_in_sup\":["); for (i = 0; i <= c->n && init_map_n >= 0; ++i) printf("%s%ld", i ? "," : "", init_map[i]); printf("],"); }
     printf("\"release_not_once\":%ld,\"release_bad_col\":%ld,\"thread_begin\":%ld,\"thread_end\":%ld,\"sched_calls\":%ld,\"sched_nonempty\":%ld,\"max_qtail\":%ld,\"slot_overrun\":%ld,\"slot_overrun_col\":%ld,\"nsuper_events\":%ld,\"lsub_events\":%ld,",
            bad_rel, bad_rel_col, thread_begin, thread_end, sched_calls, sched_nonempty, max_qtail, slot_overrun, slot_overrun_col, nsuper_events, lsub_events);
     if (c->trace & 2) {
